@@ -145,7 +145,7 @@ def check_metatype_cmp(chk, prog, cfg, rule="R16.1"):
                 return ("tid", prog.ty(gs[0])["s"] if gs else "?")
             if sp == "scale_info::meta_type::MetaType::new" and not args:
                 gs = [g for g in (t.get("gargs") or []) if isinstance(g, int)]
-                return symrun.struct(prog, MT, "new", type_id=("tid-of-identity", prog.ty(gs[0])["s"] if gs else "?"))
+                return symrun.struct(prog, MT, "new", **{mt_fields(prog)[1]: ("tid-of-identity", prog.ty(gs[0])["s"] if gs else "?")})
             return symrun.Run.handler(self, name, args, t)
 
     imps = prog.impl_for("core::cmp::PartialOrd", lambda t: t["k"] == "adt" and t["d"] == MT)
